@@ -426,6 +426,49 @@ func vfGenPipelineBody(g *vfG, prefix string, maxFilters int, allowMQTT bool) (m
 	return body, info
 }
 
+// vfShapeBody turns a generated pipeline body into one of the degenerate shapes (some of the time):
+// a flow without filters, a resilience section without filters, filters without a flow, everything
+// empty. Returns the shape name ("" = untouched).
+func vfShapeBody(g *vfG, prefix string, body map[string]interface{}, info *vfPipeInfo) string {
+	if !g.chance(prefix+"shape", "degenerate", 16) {
+		return ""
+	}
+	shape := g.pick(prefix+"shape", "which", "flow-without-filters", "flow-END-and-resilience-without-filters", "resilience-without-filters", "filters-without-flow", "all-empty")
+	switch shape {
+	case "flow-without-filters":
+		if fl, _ := body["flow"].([]interface{}); len(fl) == 0 {
+			body["flow"] = []interface{}{map[string]interface{}{"filter": g.pick(prefix+"shape", "flow-filter", "f1", "END", "nope")}}
+		}
+		body["filters"] = []interface{}{}
+	case "flow-END-and-resilience-without-filters":
+		body["flow"] = []interface{}{map[string]interface{}{"filter": "END"}}
+		body["filters"] = []interface{}{}
+		body["resilience"] = []interface{}{vfGenPolicyTree(g, g.pick(prefix+"shape", "policy-kind", "Retry", "CircuitBreaker", "Bogus"), 0)}
+	case "resilience-without-filters":
+		delete(body, "flow")
+		body["filters"] = []interface{}{}
+		body["resilience"] = []interface{}{vfGenPolicyTree(g, g.pick(prefix+"shape", "policy-kind", "Retry", "CircuitBreaker", "Bogus"), 0)}
+	case "filters-without-flow":
+		delete(body, "flow")
+	case "all-empty":
+		delete(body, "flow")
+		delete(body, "resilience")
+		body["filters"] = []interface{}{}
+	}
+	if shape != "filters-without-flow" {
+		info.Kinds, info.Names, info.NSNodes = nil, nil, nil
+		info.DanglingNS, info.UsesNS = false, false
+	}
+	info.HasFlow = body["flow"] != nil
+	if rs, ok := body["resilience"].([]interface{}); ok {
+		info.Policies = rs
+	} else {
+		info.Policies = nil
+	}
+	g.bounds["shape:"+shape] = true
+	return shape
+}
+
 // ------------------------------------------------------------------------------ Pipeline
 
 var vfMapper = &contexttest.MockedMuxMapper{}
@@ -529,6 +572,7 @@ func TestVerifC13Pipeline(t *testing.T) {
 		g := vfNewG(rt, env.pools)
 		body, info := vfGenPipelineBody(g, "", 4, true)
 		vfFixPolicyRefs(g, body)
+		vfShapeBody(g, "", body, &info)
 		if info.DanglingNS && vf.HasKnown("flow-node-namespace-without-request panic=interface conversion") && vfChance(rt, "steer-away-from-known", 80) {
 			// known finding: steer away by construction most of the time (still produced sometimes,
 			// so that a fix makes the class green instead of invisible)
@@ -629,9 +673,15 @@ func TestVerifC13GlobalFilter(t *testing.T) {
 		var infos []vfPipeInfo
 		for _, side := range []string{"beforePipeline", "afterPipeline"} {
 			if g.chance(side, "present", 70) {
+				if g.chance(side, "null-section", 5) {
+					tree[side] = nil // `beforePipeline: null`
+					g.bounds["shape:null-section"] = true
+					continue
+				}
 				body, info := vfGenPipelineBody(g, side+".", 2, false)
 				vfFixPolicyRefs(g, body)
-				if !info.HasFlow && g.chance(side, "force-flow", 80) {
+				shape := vfShapeBody(g, side+".", body, &info)
+				if shape == "" && !info.HasFlow && g.chance(side, "force-flow", 50) {
 					// without a flow the section is ignored by GlobalFilter: give it the default order
 					fl := []interface{}{}
 					for _, n := range info.Names {
